@@ -1135,6 +1135,8 @@ class Interp:
             comb = COMBINATORS.get(key) or COMBINATORS.get(gpath)
         if comb is None and "fncall" in self.features and trait:
             comb = COMBINATORS.get((trait, name))
+        if comb is None and trait:
+            comb = ALWAYS_COMB.get((trait, name))   # (`?` on an Option is a plain case split, whatever the features)
         if comb is not None and key not in self.extra_axioms and gpath not in self.extra_axioms and t["target"] is not None and len(self.uid_prefix) < 3:
             outs = comb(self, st, t, bb, fn, args, key, argtys0)
             if outs is not None:
@@ -1460,6 +1462,13 @@ class Interp:
                 return []
             return [(t["target"], o) for o in reversed(outs)]
         if k == "drop":
+            if "drops" in self.features:
+                # (only for analyses that ask: the order destructors run in, each with the value it is run on)
+                try:
+                    pl_ = self.place_term(st, t["place"])
+                    st.add_event(Event("drop", bb, place=pl_, val=self.read_pl(st, pl_)))
+                except Exception:  # noqa: BLE001
+                    st.add_event(Event("drop", bb))
             return [(t["target"], st)]
         if k == "assert":
             c = self.operand(st, t["cond"])
@@ -1498,7 +1507,12 @@ class Interp:
                     fs = [("eq", d, 1 - vals[0])]
                 else:
                     fs = [("ne", d, v) for v in vals]
-                if not any(self._contradicts(st.facts, f) for f in fs):
+                # a discriminant takes one of its type's variant values: the otherwise edge of a match that has already
+                # ruled every variant out (`(left, Some(x))` after `(None, _)` and `(Some(_), _)`) is not a path
+                names_ = self.discr_names.get(d) if isinstance(d, tuple) else None
+                ruled = set(vals) | {x[2] for x in st.facts if x[0] == "ne" and x[1] == d}
+                exhausted = bool(names_) and not isbool and set(names_) <= ruled
+                if not exhausted and not any(self._contradicts(st.facts, f) for f in fs):
                     ns = st.fork()
                     for f in fs:
                         ns.add_fact(f)
@@ -1734,6 +1748,12 @@ def ax_min(I, st, fn, args, bb):
     return ("min", args[0], args[1])
 
 
+def ax_mul_add(I, st, fn, args, bb):
+    # a.mul_add(b, c) is a*b + c with one rounding instead of two: the same term for every rule here (none of them
+    # reasons about the last bit of a float)
+    return ("fbin", "Add", ("fbin", "Mul", args[0], args[1]), args[2])
+
+
 def ax_len(I, st, fn, args, bb):
     pl = _ref_place(args[0])
     if pl in I.array_len:
@@ -1779,6 +1799,27 @@ def ax_cmp_trait(op):
                 conj = e_ if conj is None else mk_bin("BitAnd", conj, e_)
             return conj if op == "Eq" else ("un", "Not", conj)
         return NotImplemented
+
+    return f
+
+
+def ax_prim_ref_op(op):
+    # `&a >> b`, `a + &b`, `&a & &b` on primitive integers: std's forwarding impls (`impl Shr<usize> for &u64`) compute
+    # the operator on the referents.  (By value the operator is a MIR BinaryOp and never gets here.)
+    def f(I, st, fn, args, bb):
+        tys = [str(x) for x in (fn.get("args") or [])]
+        if len(tys) != 2 or len(args) < 2 or not any(x.startswith("&") for x in tys):
+            return NotImplemented
+        bases = [x.lstrip("&").replace("mut ", "").strip() for x in tys]
+        if not all(b_ in INT_TYS for b_ in bases):
+            return NotImplemented
+        vals = []
+        for x, ty in zip(args[:2], tys):
+            if ty.startswith("&"):
+                vals.append(I.read_pl(st, x[1]) if x[0] == "ref" else ("load", st.mem, ("deref", x)))
+            else:
+                vals.append(x)
+        return mk_bin(op, vals[0], vals[1])
 
     return f
 
@@ -2070,10 +2111,61 @@ def comb_fn_call(I, st, t, bb, fn, args, key, argtys):
     return I._finish_comb(t, bb, r)
 
 
+def comb_option_try_branch(I, st, t, bb, fn, args, key, argtys):
+    """`opt?`: <Option<T> as Try>::branch(opt) is the case split Continue(payload) / Break(None); the residual is handed to
+    from_residual, which answers None (axiom below)"""
+    sty = str(fn.get("self_ty") or (fn.get("args") or [""])[0])
+    if not sty.replace("core::", "std::").startswith("std::option::Option<"):
+        return None
+    o = args[0]
+    d = mk_discr(o)
+    outs = []
+    probe = st.fork()
+    _comb_event(I, probe, bb, fn, args, key)
+    s0 = I._split_on(probe, d, 0)
+    if s0 is not None:
+        outs.append((s0, ("agg", ("adt", "std::ops::ControlFlow", 1, "Break", ("0",)), (NONE,))))
+    s1 = I._split_on(probe, d, 1)
+    if s1 is not None:
+        outs.append((s1, ("agg", ("adt", "std::ops::ControlFlow", 0, "Continue", ("0",)), (_payload(I, s1, o, bb),))))
+    return I._finish_comb(t, bb, outs)
+
+
+def ax_option_from_residual(I, st, fn, args, bb):
+    sty = str(fn.get("self_ty") or (fn.get("args") or [""])[0])
+    if sty.replace("core::", "std::").startswith("std::option::Option<"):
+        return NONE
+    return NotImplemented
+
+
+def comb_slice_get(I, st, t, bb, fn, args, key, argtys):
+    """`slice.get(i)` with a usize index: Some(&slice[i]) when i < len, None otherwise"""
+    if (fn.get("args") or ["", ""])[-1] != "usize":
+        return None
+    pl = _ref_place(args[0])
+    if pl is None or pl[0] == "slicefrom":
+        return None
+    ln = ax_len(I, st, fn, (args[0],), bb)
+    c = mk_bin("Lt", args[1], ln)
+    probe = st.fork()
+    _comb_event(I, probe, bb, fn, args, key)
+    outs = []
+    s0 = I._split_on(probe, c, 0)
+    if s0 is not None:
+        outs.append((s0, NONE))
+    s1 = I._split_on(probe, c, 1)
+    if s1 is not None:
+        outs.append((s1, mk_some(("ref", ("index", pl, args[1])))))
+    return I._finish_comb(t, bb, outs)
+
+
+ALWAYS_COMB = {("std::ops::Try", "branch"): comb_option_try_branch}
+
 COMBINATORS = {
     ("std::ops::Fn", "call"): comb_fn_call,
     ("std::ops::FnMut", "call_mut"): comb_fn_call,
     ("std::ops::FnOnce", "call_once"): comb_fn_call,
+    "core::slice::<impl [T]>::get": comb_slice_get,
     "std::option::Option::<T>::map": comb_option("map"),
     "std::option::Option::<T>::and_then": comb_option("and_then"),
     "std::option::Option::<T>::map_or": comb_option("map_or"),
@@ -2090,6 +2182,7 @@ COMBINATORS = {
 
 AXIOMS = {
     ("std::ops::Index", "index"): ax_index,
+    ("std::ops::FromResidual", "from_residual"): ax_option_from_residual,
 
     ("std::ops::IndexMut", "index_mut"): ax_index,
     ("std::ops::Deref", "deref"): ax_deref,
@@ -2117,8 +2210,17 @@ AXIOMS = {
     ("std::cmp::Ord", "min"): ax_min,
     "std::cmp::max": ax_max,
     "std::cmp::min": ax_min,
+    "std::f64::<impl f64>::mul_add": ax_mul_add,
+    "core::f64::<impl f64>::mul_add": ax_mul_add,
+    "std::f32::<impl f32>::mul_add": ax_mul_add,
+    "core::f32::<impl f32>::mul_add": ax_mul_add,
     "std::vec::Vec::<T, A>::len": ax_len,
     "core::slice::<impl [T]>::len": ax_len,
+    ("std::ops::Shr", "shr"): ax_prim_ref_op("Shr"),
+    ("std::ops::Shl", "shl"): ax_prim_ref_op("Shl"),
+    ("std::ops::BitAnd", "bitand"): ax_prim_ref_op("BitAnd"),
+    ("std::ops::BitOr", "bitor"): ax_prim_ref_op("BitOr"),
+    ("std::ops::BitXor", "bitxor"): ax_prim_ref_op("BitXor"),
     ("std::cmp::PartialEq", "eq"): ax_cmp_trait("Eq"),
     ("std::cmp::PartialEq", "ne"): ax_cmp_trait("Ne"),
     ("std::cmp::PartialOrd", "lt"): ax_cmp_trait("Lt"),
